@@ -229,7 +229,13 @@ func (e *specEnv) eval(x Expr) sv {
 		var pats []string
 		ne.inPat = true
 		for _, p := range n.Pats {
-			pats = append(pats, ne.eval(p).t)
+			pt := ne.eval(p).t
+			if strings.Contains(pt, "(ite ") {
+				// conditional terms are not allowed in patterns (z3 prints a warning, cvc5 rejects the
+				// query): the contract must name an unconditional trigger term
+				specFail("trigger %s contains a conditional term", pt)
+			}
+			pats = append(pats, pt)
 		}
 		ne.inPat = false
 		if n.Forall {
